@@ -16,7 +16,7 @@ def _fits(c):
     if lo >= 0 and hi <= (1 << 32) - 1: return "ulong"
     return None
 
-def features(t, env, out=None, inline=False, seen=None):
+def features(t, env, out=None, inline=False, seen=None, tagdefault=None):
     top = out is None
     out = set() if out is None else out
     if top and t["k"] == "REF" and genmod.resolve_kind(t, env) == "CHOICE": out.add("choice_alias")
@@ -26,7 +26,7 @@ def features(t, env, out=None, inline=False, seen=None):
         if t["name"] in seen: return out
         tgt = env[t["name"]]
         if tgt["k"] == "REF" and genmod.resolve_kind(tgt, env) == "CHOICE": out.add("choice_alias")
-        return features(tgt, env, out, False, seen | {t["name"]})
+        return features(tgt, env, out, False, seen | {t["name"]}, tagdefault)
     out.add(k)
     if k == "INTEGER":
         c = t.get("cons")
@@ -41,10 +41,14 @@ def features(t, env, out=None, inline=False, seen=None):
         for c in t["comps"]:
             tg = c["type"].get("tag")
             if k == "CHOICE" and tg and tg[1] >= 128: out.add("choice_tag_ge128")
-            features(c["type"], env, out, True, seen)
+            ck = c["type"]["k"]
+            if tg and (tg[2] == "EXPLICIT" or (tg[2] == "" and tagdefault in (None, "EXPLICIT"))) and (
+                    ck == "ENUMERATED" or (ck == "INTEGER" and c["type"].get("cons") and genmod.int_repr(c["type"]["cons"]) == "ulong")):
+                out.add("explicit_tag_own_descr")      # F49: explicit tag emitted twice
+            features(c["type"], env, out, True, seen, tagdefault)
         if t.get("ext") is not None: out.add("ext:" + k)
     if k in ("SEQUENCE OF", "SET OF"):
-        features(t["elem"], env, out, True, seen)
+        features(t["elem"], env, out, True, seen, tagdefault)
     return out
 
 def replay_witnesses(ctx, driver_sources=("gen_driver.c", "ops_gen_core.c", "reflect.c")):
